@@ -8,10 +8,12 @@ wt=$(mktemp -d /tmp/seedtry.XXXXXX)
 git -C /repo worktree add -q --detach "$wt" HEAD
 if ! git -C "$wt" apply "$patch"; then echo "PATCH DOES NOT APPLY"; git -C /repo worktree remove --force "$wt"; exit 2; fi
 cd /verif
+ev=$(mktemp -d /tmp/seedev.XXXXXX); cp -a evidence/. "$ev"/   # evidence must come from runs against /repo
 for c in "$@"; do
   echo "=== $c against $(basename "$patch")"
   VERIF_REPO="$wt" timeout 1800 ./check "$c" 2>&1 | grep -v "^KNOWN-FINDING" | tail -3 | cut -c1-400
 done
 git -C /repo worktree remove --force "$wt"
+cp -a "$ev"/. evidence/; rm -rf "$ev"
 # bring coq/Gen back to the real tree
 PYTHONPATH=/verif:/repo/src PYTHONHASHSEED=0 /venv/bin/python translator/gen.py --repo /repo > /dev/null
